@@ -662,9 +662,13 @@ class NetworkGraph(AbstractBaseIR):
             for i, (d, sidx) in enumerate(zip(delays, source_idx)):
                 var_delayed = f"past({var}, {d})" if d else var
                 if len(target_shape) < 1 or (len(target_shape) == 1 and target_shape[0] == 1):
-                    buffer_eqs.append(f"{var}_buffered{buffer_id} = {var_delayed}")
+                    if len(delays) == 1:
+                        buffer_eqs.append(f"{var}_buffered{buffer_id} = {var_delayed}")
+                    else:
+                        buffer_eqs.append(f"index({var}_buffered{buffer_id}, {i}) = {var_delayed}")
                 else:
-                    buffer_eqs.append(f"index({var}_buffered{buffer_id}, {sidx}) = index({var_delayed}, {sidx})")
+                    # slot i of the buffer belongs to delay i; it holds the delayed value of source element sidx
+                    buffer_eqs.append(f"index({var}_buffered{buffer_id}, {i}) = index({var_delayed}, {sidx})")
 
         # add buffer equations to node operator
         op_info = node_ir[op]
